@@ -351,7 +351,7 @@ def _push_is_reentrant(heapdict):
 
     t = threading.Thread(target=run, daemon=True)
     t.start()
-    t.join(20.0)
+    t.join(5.0)
     _REENTRANT[key] = bool(done)
   return _REENTRANT[key]
 
